@@ -22,6 +22,29 @@ def run(R):
     for q in DATAGRAM:
         escape_check(R, 'C06.ESC.3', q, set(), 'the datagram callback')
 
+    # ---------------------------------------------------------------- ESC.5  the library's own signature verifiers
+    # validators run inside the pipeline's tasks. User validators are assumed not to raise; the library's verifiers are code of this
+    # repository: for every SignaturePtrs a decoder can hand them (an absent SignatureValue element is `signature_value_buf = None`;
+    # the covered-part list is always a list after a parse) they must answer, not fail
+    R.ob('C06.ESC.5', 'the library\'s signature verifiers answer False for a packet without SignatureValue instead of raising '
+                      '(a validator that raises ends the task completing the pending Interest with an unhandled error)')
+    from ..esc import esc_of
+    E_ = esc_of(P)
+    KV = 'ndn.security.validator.known_key_validator'
+    ver = sorted(q for q in P.funcs if q.startswith(KV + '.verify_') and '.<' not in q)
+    R.need(len(ver) >= 4, f'only {len(ver)} verify_* functions found in {KV}')
+    for q in ver:
+        S5 = E_.analyze(q, fine=True)
+        R.touch(P.func(q))
+        cxv = ctx(R, q)
+        bad5 = sorted((line, desc) for (exc, (line, desc)) in S5.raises if exc in ('TypeError', 'AttributeError') and 'signature_value_buf' in desc)
+        inst = f'{q} :: absent SignatureValue'
+        if bad5:
+            R.fail('C06.ESC.5', inst, q, 'def ' + q.rsplit('.', 1)[1], f'{bad5[0][1].split(" ", 1)[1] if " " in bad5[0][1] else bad5[0][1]}: a Data / Interest that has a '
+                   'SignatureInfo but no SignatureValue element makes the verifier raise TypeError instead of returning False (repro notes/repro/e17.py)',
+                   f'{cxv.f.path}:{bad5[0][0]}')
+        else:
+            R.ok('C06.ESC.5', inst, cxv.f.loc())
     # ---------------------------------------------------------------- ESC.4  end of stream
     R.ob('C06.ESC.4', 'StreamFace.run: end-of-stream / reset inside a packet is caught, shuts the face down and delivers nothing')
     run_q = 'ndn.transport.stream_face.StreamFace.run'
